@@ -86,6 +86,10 @@ pub trait Lend {
     fn lend_mut_default(&mut self, x: u8) -> &mut Tracked {
         self.lend_mut(x)
     }
+    /// provided pinned-receiver method that lends nothing
+    fn poke_pin_default(self: std::pin::Pin<&mut Self>, x: u8) -> u32 {
+        x as u32 + 2
+    }
 }
 
 #[derive(Clone, Copy, Debug, PartialEq, Eq, Hash, Serialize, Deserialize)]
@@ -120,6 +124,8 @@ pub enum PhaseEnd {
     PokeDefault(u8),
     /// provided `&mut self` method whose default body calls `lend_mut` (make_mut on the helper)
     LendMutDefault(u8),
+    /// provided `self: Pin<&mut Self>` method that lends nothing: releases nothing either
+    PokePinDefault(u8),
 }
 
 #[derive(Clone, Debug, PartialEq, Eq, Hash, Serialize, Deserialize)]
@@ -448,6 +454,15 @@ fn execute_on(
         run_phase(&insts[..], phase, &mut book, &mut salt, &mut stats)?;
         match phase.end {
             PhaseEnd::Nothing => {}
+            PhaseEnd::PokePinDefault(i) => {
+                let i = i as usize % n;
+                let r = std::pin::Pin::new(&mut insts[i]).poke_pin_default(3);
+                if r != 5 {
+                    return Err(format!("poke_pin_default(3) returned {r}"));
+                }
+                book.check_no_early_drop()?;
+                stats.mut_default += 1;
+            }
             PhaseEnd::PokeDefault(i) => {
                 let i = i as usize % n;
                 let r = insts[i].poke_default(3);
@@ -687,6 +702,7 @@ fn phase_strategy() -> impl Strategy<Value = Phase> {
             2 => (0..4u8).prop_map(PhaseEnd::MakeMut),
             1 => (0..4u8).prop_map(PhaseEnd::LendMut),
             2 => (0..4u8).prop_map(PhaseEnd::PokeDefault),
+            2 => (0..4u8).prop_map(PhaseEnd::PokePinDefault),
             1 => (0..4u8).prop_map(PhaseEnd::LendMutDefault),
         ],
     )
